@@ -22,14 +22,14 @@ BOUNDS = {
     "quick": "shapes order<=3,size<=3,cells<=8 + (2,2,2,2),(2,1,2,2); holders: dense (generic, half zero), sparse "
              "(empty, one, <50%, >50%, full; identity+reversed order), Kruskal R=2 (weights 2,-1), Tucker dense/sparse core, "
              "sums of 2 mixed parts; every designation; ttt all pairings; ttsv cubical order<=4",
-    "thorough": "shapes order<=4,size<=3,cells<=16; same operations",
+    "thorough": "shapes order<=4,size<=3,cells<=24; same operations",
 }
 CHUNK = 4
 
 
 def _shapes(tier):
     if tier == "thorough":
-        return space.shapes(4, 3, 16)
+        return space.shapes(4, 3, 24)
     return space.shapes(3, 3, 8) + [(2, 2, 2, 2), (2, 1, 2, 2)]
 
 
